@@ -309,7 +309,10 @@ where
     fn call(&mut self, req: Req) -> Self::Future {
         let limiter = self.limiter.clone();
         let config = Arc::clone(&self.config);
-        let mut inner = self.inner.clone();
+        // `poll_ready` was driven on `self.inner`: that instance takes the call, a fresh
+        // clone is left behind for the next request (Tower readiness contract)
+        let clone = self.inner.clone();
+        let mut inner = std::mem::replace(&mut self.inner, clone);
 
         Box::pin(async move {
             // Try to acquire a permit
